@@ -160,7 +160,7 @@ def units(tier, seed=0):
             loops = form in ('generator',) or not _memcpy_compatible(T, U) or form == 'ptr_aliased'
             us.append(dict(id='conv.%s_from_%s.%s' % (T, U, form), tu='conv_%s_%s' % (T, U), gen=cxx, template_text=conv.c_unit(T, U, form), vars={},
                            entry='h_uc', enforce='@F{%s}' % conv.FORMS[form][0], replace=[], props=['C15'], layer='memory.hpp/typeTraits.hpp',
-                           kind='bounded(items <= 4, copy loop unwound)', unwind=6, cdefs=['VF_WINDOWS=1'], config='conversion: %s <- %s, %s' % (T, U, form)))
+                           kind='bounded(items <= 4, copy loop unwound)', unwind=6, cdefs=['VF_WINDOWS=1'], config='conversion: %s <- %s, %s' % (T, U, form), replay='convert'))
     for spec, flags in elem.ELEM_CATALOGUE[tier]:
         for f in flags:
             txt, L = elem.c_unit(spec, f)
